@@ -391,7 +391,7 @@ def observe(real: Real, model: Model, op, hist, deep: bool):
         # ---- independence in both directions, also LATER: (1) the source is written again after deriving ----
         mode0, kind0 = getattr(real, "mode0", None), getattr(real, "kind0", None)
         if mode0 is not None and not out:
-            for follow in FOLLOW_UPS:
+            for follow in (FOLLOW_UPS if TIER[0] != "quick" else FOLLOW_UPS[1:5]):
                 real2, model2 = _rebuild(mode0, kind0, hist)
                 derived = [(nm, d, _snapshot(np, d)) for nm, d in _derive_all(real2, model2)]
                 for op2 in follow:
@@ -440,6 +440,7 @@ def run_history(case):
     return {"v": viol}
 
 
+TIER = ["thorough"]  # set by bfs() from the case; replays use the full list of follow-ups
 FOLLOW_UPS = [["appA"], ["start", "appA"], ["appN", "appB"], ["clear"], ["end", "start", "appB"], ["track"], ["startC", "appC"]]
 
 
@@ -474,9 +475,13 @@ def _snapshot(np, d):
     return ([float(t) for t in d.times], [tuple(complex(v) for v in np.asarray(x).ravel()) for x in d.data])
 
 
-def _replay(mode, kind, hist, check_all=False):
+LOOKAHEAD_MAX_LEN = 5  # histories up to this length get the look-ahead from their derived storages (cost: 7 rebuilds)
+
+
+def _replay(mode, kind, hist, check_all=False, lookahead=True):
     real = Real(mode, kind)
-    real.mode0, real.kind0 = mode, kind
+    if lookahead:
+        real.mode0, real.kind0 = mode, kind
     model = Model(mode, real.flat(real.a), real.flat(real.b), real.flat(real.x))
     if "+pre" in kind:
         real.prefill(mode, kind.endswith("preC"))
@@ -520,6 +525,7 @@ def bfs(case):
     canonicalisation used for merging on the real object.
     """
     mode, kind, first, depth = case["mode"], case["kind"], case["first"], case["depth"]
+    TIER[0] = case.get("tier", "thorough")
     root = [first]
     real, model, viol = _replay(mode, kind, root)
     states = {real.canon(): [root]}
@@ -540,7 +546,8 @@ def bfs(case):
             succ = []
             for op in OPS:
                 h = hist + [op]
-                real, model, viol = _replay(mode, kind, h)
+                # (the look-ahead of `derive` runs once per merged state - first witness - and for short histories)
+                real, model, viol = _replay(mode, kind, h, lookahead=(w_i == 0 and len(h) <= LOOKAHEAD_MAX_LEN))
                 executed += 1
                 if viol:
                     viols += viol
@@ -586,7 +593,7 @@ def bfs(case):
 def main(run):
     depth = 5 if run.tier == "quick" else 7
     cases = [
-        {"mode": m, "kind": k, "first": op, "depth": depth}
+        {"mode": m, "kind": k, "first": op, "depth": depth, "tier": run.tier}
         for m in MODES
         for k in KINDS
         for op in OPS
@@ -599,6 +606,9 @@ def main(run):
         "state merging uses (write_mode, data shape, grid, template, dtype, frames, source data, info keys); "
         "validated at run time by expanding two witnesses of every merged state",
         "extract_time_range is compared only when the stored times are sorted (it bisects)",
+        f"look-ahead from derived storages (source written again with the derived storages alive; derived storages written "
+        f"to): once per merged state, for histories up to length {LOOKAHEAD_MAX_LEN}, "
+        f"{4 if run.tier == 'quick' else len(FOLLOW_UPS)} follow-up write sequences",
     ]
     return (
         "BFS over all histories of the 14-operation alphabet up to the depth bound from 4 write modes x "
